@@ -289,6 +289,9 @@ def judge(sc, rec):
             # httpcore parses each SOCKS5 reply from ONE read(): a reply cut short by the fault is reported as a malformed reply
             # (ProxyError). Whether a split-but-valid SOCKS reply should be reassembled is outside the listed properties (DESIGN 8.5).
             allowed.add("ProxyError")
+        if name not in allowed and fk in ("stall", "tls-stall", "connect-stall", "read-stall"):
+            v["C16"].append(V("C16", "timeout-not-applied", f"{what}: request {i} raised {exc['type']}: {exc['msg'][:120]} after {rec['times'][i]:.2f}s; the peer had gone "
+                              f"silent ('{fk}') and the configured timeout is {SHORT}s: the operation was not limited by it", exc=name, **base))
         if name not in allowed:
             v["C15"].append(V("C15", "wrong-class", f"{what}: request {i} raised {exc['type']}: {exc['msg']} (raised in {exc.get('inner')}); the cause was '{fk}' "
                               f"({rec['fired']}), for which {sorted(allowed)} are the matching classes", exc=name, site=exc.get("inner"), **base))
@@ -370,9 +373,14 @@ def execute_diff(sc) -> Outcome:
             return ("exc", o["exc"]["name"])
         return ("ok", o["status"], o["headers"], o["body"], o.get("http_version"), o.get("reason"))
 
+    short = SHORT in timeouts_for(sc).values()
     for variant in VARIANTS[1:]:
         for i, (a, b) in enumerate(zip(ref["outs"], recs[variant]["outs"])):
             sa, sb = summary(a), summary(b)
+            if short and ((sa[0] == "exc" and sa[1].endswith("Timeout")) or (sb[0] == "exc" and sb[1].endswith("Timeout"))) and (sa[0], sb[0]) != ("exc", "exc"):
+                break  # a 0.06 s timeout may also expire in a step the fault did not touch (busy machine): what follows is not comparable
+            if short and sa[0] == sb[0] == "exc" and sa[1].endswith("Timeout") and sb[1].endswith("Timeout"):
+                continue  # which of the 0.06 s limits expired first is a matter of timing
             if sa != sb:
                 da = sa[1] if sa[0] == "exc" else f"{sa[1]}/{len(sa[3])}B"
                 db = sb[1] if sb[0] == "exc" else f"{sb[1]}/{len(sb[3])}B"
